@@ -12,25 +12,36 @@ MODELLED_FUNCS = {'sugar/core/fts.py': [
     'Feature.__init__', 'Feature.locs', 'Feature.loc', 'Feature.__len__', 'Feature.overlaps', 'Feature.rc',
     'Feature.__lt__', 'FeatureList.loc_range', 'FeatureList.slice', 'FeatureList.rc', 'FeatureList.sort']}
 STRANDS = '+-.?'
-RULE = ('four case kinds: (h) a FeatureList built through the public constructors (features may share Location objects) followed by a '
+RULE = ('seven case kinds: (h) a FeatureList built through the public constructors (features may share Location objects) followed by a '
         'history of slice / rc / Feature.rc / locs-setter / locs-sharing operations and of queries (slice observed without replacing the '
         'list, optionally mutating the RESULT; comparisons between features); the state after every step, every query, the final features '
         'and loc_range are compared, every slice is repeated, operands and every LocationTuple handed out earlier must stay unchanged; '
         'FeatureList.sort()/sorted() against the order of the covered ranges and the comparison operators; metadata keys set to None after '
         'construction (feature level and per location) must survive every operation, results that render like the operand must be == to it, '
         'slice(a,b,rel=a).rc(b-a) is cross-checked against seq.sl(update_fts=True)[minus-strand Location]; '
-        '(rr) rc twice; (cmp) <,<=,>,>=,overlaps,range of two LocationTuples; (api) argument checking of constructors and comparisons. '
+        '(rr) rc twice; (cmp) <,<=,>,>=,overlaps,range of two LocationTuples; (api) argument checking of constructors and comparisons; '
+        '(law) one list, two windows and two lengths: slice.slice against the single slice with the intersected window and summed rel, '
+        'slice.rc(L\') against rc(L).slice with the mirrored window (exact equality demanded by the driver when every feature is stranded); '
+        '(ops) every ordered pair of 12 operand kinds (LocationTuple, Feature without / with seqid a, B, ab, Location, plain tuple, int, str, '
+        'None, list, float) with at least one LocationTuple / Feature through <,<=,>,>= and overlaps() in both directions; (args) '
+        'Location(start, stop) for every pair of value kinds int, bool, numpy.int64, float (integral and half-integral), None, integer '
+        'kinds then run through slice / rc / loc_range / comparisons against the same plain ints. '
         'Exhaustive box: every pair of intervals x strand x window (bounds None or 0..N, including empty and inverted windows), N=3 quick '
         '(half sampled) / N=5 thorough, defect bits and rel drawn per case; every pair of intervals through the comparisons; all 256 '
         'defect sets through rc; plus random histories with coordinates up to 2^62, defect values beyond 255, invalid constructions and a '
-        'state-independence stream (450 quick / 4000 thorough). non-trivial = distinct case with at least one branch marker (cut side, '
+        'state-independence stream (450 quick / 4000 thorough), 380 / 5000 law cases, 190 / 760 operand-kind cases, 150 / 1000 typed-coordinate '
+        'cases. non-trivial = distinct case with at least one branch marker (cut side, '
         'dropped location/feature, window edge = location edge, minus/unstranded, rel != 0, open window side, tie, shared locations, '
         'mutated result, rejected construction)')
 TRUSTED = ['CPython sorted() stability incl. reverse=True, enum.IntFlag/StrEnum semantics (len, ^, |, KEEP boundary), sys.maxsize = 2^63-1 '
            '(asserted by the driver), tuple/list/UserList plumbing',
            'modelled: Defect._reverse, Strand._reverse, Location.__init__/_reverse, LocationTuple.__new__/range/<,<=,>,>=/overlaps/_reverse, '
            'Feature.__init__/locs setter/rc, FeatureList.slice/rc/loc_range (fts.py:19-256, 281-299, 390-400, 705-780)',
-           'metadata of locations and features is an opaque tag carried along (Meta copying is C18)']
+           'metadata of locations and features is an opaque tag carried along (Meta copying is C18)',
+           'CPython binary rich-comparison dispatch (Objects/object.c do_richcompare: reflected method first for a proper subclass on the '
+           'right, otherwise after NotImplemented; two NotImplemented answers are a TypeError) as written in py_cmp of C08_Model.v; str < str '
+           'on seqids is code-point order (modelled on Latin-1 text); numpy.int64 / bool / float arithmetic and ordering agree with the '
+           'integers they denote (checked relationally against plain ints by the (args) cases)']
 ASSUMPTIONS = ['coordinates |x| < 2^62 (the code substitutes +-sys.maxsize for an open window side)',
                'strands are the four Strand members; defect values are arbitrary non-negative integers (IntFlag keeps unknown bits)',
                'Locations are not mutated in place by the caller after construction (loc.strand = ... bypasses the constructor); sharing of '
@@ -47,16 +58,31 @@ LEVEL_TEXT = ('Machine-checked Coq theorems over all integers and all windows: F
               'produced by constructor, setter, slice or rc over arbitrary operation histories is non-empty, single-stranded and ordered '
               '5\'->3\'; <,<=,>,>= are the lexicographic order on ranges with trichotomy, overlaps is range intersection, FeatureList.sort() is a '
               'permutation ordered by that order (stable insertion sort, fixpoint on ordered lists), range and '
-              'loc_range are (least start, greatest stop). The hand-written model is tied to sugar by differential testing on every run '
+              'loc_range are (least start, greatest stop). Composition laws for all windows and integers (list induction + lia, no box): '
+              'slice(s1,e1,r1).slice(s2,e2,r2) = slice(max(s1,s2+r1), min(e1,e2+r1), r1+r2) (C08_slice_slice, also open/empty/inverted windows), '
+              'Defect._reverse is a permutation of bit positions and commutes with | (C08_defect_reverse_bits), slice(s,e,r).rc(L\') = '
+              'rc(L).slice(L-e, L-s, L-L\'-r) exactly on stranded features and up to the order of locations on all (C08_rc_slice_commute, '
+              '_perm, exactness without strand refuted: _refuted). Operand types: a comparison answers exactly for LocationTuple x LocationTuple '
+              '(4 operators), Feature < / > Feature (seqids first), Feature < LocationTuple, everything else incl. plain tuples is a '
+              'TypeError; every answer not decided by seqids is the comparison of the covered ranges; overlaps() likewise '
+              '(C08_cmp_operands, _value, C08_cmp_seqid_first, C08_seqid_order, C08_overlaps_operands). Location(start, stop) takes every '
+              'orderable number with start < stop (int, bool, numpy integer, float), None is a TypeError, integer-valued arguments are accepted '
+              'exactly when the integer constructor accepts them (C08_location_args, C08_location_args_int). The hand-written model is tied to sugar by differential testing on every run '
               '(exhaustive small box, random large coordinates, state-independence histories).')
 LEVEL_NOTE = ('Trusted: Coq kernel/vm_compute, tools/gen_data.py (flag values), the correspondence harness, CPython sorted/enum. Modelled rather '
               'than verified: the functions of sugar/core/fts.py listed in MODELLED_FUNCS (every statement of them is executed in the quick '
               'tier; no unreachable lines). Proved for all inputs: every clause of the property except the involution outside tie_ok (refuted: '
               'C08_mirror_involutive_refuted, characterised: C08_mirror_involutive_iff, C08_tie_region_iff). Tested only (not expressible in '
               'the pure model): independence from shared Location objects / earlier calls (history stream), preservation of None-valued metadata and == equality (Meta copying), agreement of sorted()/sort() '
-              'with the modelled stable sort, the BioSeq.sl(update_fts) cross-check, the seqid branch of Feature.__lt__, the TypeError paths of '
-              'constructors and comparisons, Feature.overlaps/__len__/loc delegation, the start=/stop=/strand= keyword form and the '
-              'tuple-conversion form of the constructors, CPython int/enum behaviour. Identity for an unbounded window is proved for '
+              'with the modelled stable sort, the BioSeq.sl(update_fts) cross-check, Feature.__len__/loc delegation, the start=/stop=/strand= keyword form and the '
+              'tuple-conversion form of the constructors, CPython int/enum behaviour, that bool / numpy.int64 coordinates behave like the ints they '
+              'denote through slice / rc / loc_range / comparisons (relational (args) check; float coordinates: constructor decision only, '
+              'len(Feature) is not defined for them). Since round 6 inside the model: the seqid branch of Feature.__lt__, the operand-type '
+              'dispatch of <,<=,>,>= and overlaps() (py_cmp: CPython\'s reflected-method protocol is modelled, hence trusted as modelled), the '
+              'value kinds accepted by Location(). The tie tolerates an ANSWER between LocationTuple/Feature operands where today\'s code raises '
+              'TypeError (API extension; the oracle still requires the answer to be the comparison of the covered ranges); a refusal where the '
+              'model answers, and any answer for a foreign operand, is a violation. Features with and without seqid compared with each other: '
+              'property silent (TypeError today, so FeatureList.sort() fails on such a list). Identity for an unbounded window is proved for '
               '|x| < 2^62. All theorems closed under the global context.')
 TECHNIQUE = 'Coq proof (lia, list induction, finite enumeration of 256 defect sets / 256 bytes) + differential correspondence'
 
@@ -64,6 +90,10 @@ B62 = 2 ** 62
 
 
 # ----------------------------------------------------------------------------- Coq terms
+# scalar fields of the round-6 case kinds (law: two windows and two lengths; ops: operand kinds; args: typed coordinates)
+PLAIN_KEYS = ('s1', 'e1', 'r1', 's2', 'e2', 'r2', 'Lp', 'kx', 'ky', 'ka', 'za', 'kb', 'zb', 'w')
+
+
 def _t(r):
     """location dict -> (start, stop, strand, defect, tag); dict cases survive the generic shrinker"""
     return (r['a'], r['b'], r['_s'], r['d'], r['m'])
@@ -105,6 +135,9 @@ def _pack(c):
     for k in ('t', 'u'):
         if k in c:
             d[k] = [_pl(r) for r in c[k]]
+    for k in PLAIN_KEYS:
+        if k in c:
+            d[k] = c[k]
     return d
 
 
@@ -150,6 +183,9 @@ def _norm(c):
     for k in ('t', 'u'):
         if k in c:
             d[k] = [list(_t(r)) for r in c[k]]
+    for k in PLAIN_KEYS:
+        if k in c:
+            d[k] = c[k]
     return d
 
 
@@ -192,6 +228,18 @@ def _op(o):
     raise ValueError(o)
 
 
+def _coord(kind, z):
+    if kind == 'i':
+        return '(KInt %s)' % coq_z(z)
+    if kind == 'b':
+        return '(KBool %s)' % ('true' if z else 'false')
+    if kind == 'n':
+        return '(KNp %s)' % coq_z(z)
+    if kind == 'h':
+        return '(KHalf %s)' % coq_z(z)
+    return 'KNone'
+
+
 def model_term(case):
     case = _norm(case)
     k = case['_k']
@@ -201,11 +249,30 @@ def model_term(case):
         return 'out (run_C08_rcrc %s %s)%%Z' % (_fts(case['fts']), coq_z(case['L']))
     if k == 'api':
         return 'out (run_C08_api %s %s)%%Z' % (coq_N(case['v']), _raws(case['t']))
+    if k == 'law':
+        oz = lambda v: coq_opt(v, coq_z)
+        return 'out (run_C08_law %s %s %s %s %s %s %s %s %s)%%Z' % (
+            _fts(case['fts']), oz(case['s1']), oz(case['e1']), coq_z(case['r1']), oz(case['s2']), oz(case['e2']), coq_z(case['r2']),
+            coq_z(case['L']), coq_z(case['Lp']))
+    if k == 'ops':
+        return 'out (run_C08_ops %s %s %s %s)%%Z' % (coq_N(abs(case['kx'])), coq_N(abs(case['ky'])), _raws(case['t']), _raws(case['u']))
+    if k == 'args':
+        return 'out (run_C08_args %s %s)%%Z' % (_coord(case['ka'], case['za']), _coord(case['kb'], case['zb']))
     return 'out (run_C08_cmp %s %s)%%Z' % (_raws(case['t']), _raws(case['u']))
 
 
 def split_model(case, m):
     return bool(m[0]), m[1]
+
+
+def agree(case, implval, modelval):
+    """equality, except that for operand-kind cases an ANSWER between LocationTuple / Feature operands where the modelled code
+    raises TypeError is not a disagreement by itself (an API extension; the oracle still demands that the answer is the
+    comparison of the covered ranges). A refusal where the model answers, and any answer for a foreign operand, is one."""
+    if case.get('_k') == 'ops' and isinstance(implval, list) and isinstance(modelval, list) and len(implval) == len(modelval) \
+            and abs(case['kx']) <= 4 and abs(case['ky']) <= 4:
+        return all(g == m or (m == 'TypeError' and isinstance(g, bool)) for g, m in zip(implval, modelval))
+    return implval == modelval
 
 
 # ----------------------------------------------------------------------------- implementation driver
@@ -358,12 +425,141 @@ def _impl_api(v, raws):
     return [_vloc(l) for l in ft.locs]
 
 
+class CompositionLawBroken(Exception):
+    """slice after slice is not the single slice with the intersected window and the summed shift, or (stranded features)
+    slice-then-rc differs from rc-then-slice with the mirrored window"""
+
+
+class ComparisonNotBool(Exception):
+    """a comparison operator / overlaps() answered with something that is neither True nor False"""
+
+
+class TypedCoordsDiffer(Exception):
+    """integer-valued coordinates given as bool / numpy integer / float behave differently from the same integers"""
+
+
+def _impl_law(case):
+    """four routes on freshly built lists (rc works in place): slice twice | one slice | slice, rc(L') | rc(L), slice"""
+    import sys
+    s1, e1, r1, s2, e2, r2, L, Lp = (case[k] for k in ('s1', 'e1', 'r1', 's2', 'e2', 'r2', 'L', 'Lp'))
+    a1 = -sys.maxsize if s1 is None else s1
+    b1 = sys.maxsize if e1 is None else e1
+    a2 = -sys.maxsize if s2 is None else s2
+    b2 = sys.maxsize if e2 is None else e2
+    fts = _build(case)
+    before = [_vft(f) for f in fts]
+    q1 = fts.slice(s1, e1, rel=r1)
+    v2 = [_vft(f) for f in q1.slice(s2, e2, rel=r2)]
+    v3 = [_vft(f) for f in fts.slice(max(a1, a2 + r1), min(b1, b2 + r1), rel=r1 + r2)]
+    v4 = [_vft(f) for f in fts.slice(s1, e1, rel=r1).rc(seqlen=Lp)]
+    _need([_vft(f) for f in fts] == before, OperandChanged, 'slice changed its operand')
+    v5 = [_vft(f) for f in _build(case).rc(seqlen=L).slice(L - b1, L - a1, rel=L - Lp - r1)]
+    _need(v2 == v3, CompositionLawBroken, 'slice(%r,%r,%r).slice(%r,%r,%r) = %r but the single slice gives %r' % (s1, e1, r1, s2, e2, r2, v2, v3))
+    if all(f[0][0][2] in '+-' for f in before):
+        _need(v4 == v5, CompositionLawBroken, 'slice.rc = %r but rc.slice = %r' % (v4, v5))
+    return [v2, v3, v4, v5]
+
+
+OPERAND_KINDS = 12      # 0 LocationTuple, 1-4 Feature (no seqid, 'a', 'B', 'ab'), 5 Location, 6 plain tuple, 7.. unrelated values
+
+
+def _operand(kind, t):
+    from sugar.core.fts import Feature, Location
+    if kind == 0:
+        return t
+    if kind in (1, 2, 3, 4):
+        sid = {1: None, 2: 'a', 3: 'B', 4: 'ab'}[kind]
+        return Feature('gene', locs=t, meta=({'seqid': sid} if sid is not None else None))
+    if kind == 5:
+        return Location(t.range[0], t.range[1])
+    if kind == 6:
+        return tuple(t)
+    return [5, 'x', None, [1, 2], 2.5][(kind - 7) % 5]
+
+
+def _impl_ops(case):
+    """every operator between two operands of the given kinds: True / False / name of the exception class"""
+    import operator
+    from sugar.core.fts import LocationTuple
+    t = LocationTuple([_mkloc(r) for r in case['t']])
+    u = LocationTuple([_mkloc(r) for r in case['u']])
+    x, y = _operand(case['kx'], t), _operand(case['ky'], u)
+
+    def obs(f):
+        try:
+            r = f()
+        except Exception as e:
+            return type(e).__name__
+        _need(r is True or r is False, ComparisonNotBool, repr(r))
+        return r
+
+    def allobs():
+        return [obs(lambda: x < y), obs(lambda: x <= y), obs(lambda: x > y), obs(lambda: x >= y),
+                obs(lambda: x.overlaps(y)) if hasattr(x, 'overlaps') else None,
+                obs(lambda: y.overlaps(x)) if hasattr(y, 'overlaps') else None]
+    out = allobs()
+    _need(allobs() == out, RepeatedCallDiffers, 'comparison')
+    return out
+
+
+def _typed(kind, z):
+    if kind == 'i':
+        return int(z)
+    if kind == 'b':
+        return bool(z)
+    if kind == 'n':
+        import numpy
+        return numpy.int64(z)
+    if kind == 'h':
+        return z / 2
+    return None
+
+
+def _twice(v):
+    from fractions import Fraction
+    w = Fraction(v) * 2 if not hasattr(v, 'item') else Fraction(v.item()) * 2
+    assert w.denominator == 1
+    return int(w)
+
+
+def _impl_args(case):
+    """Location(start, stop) with typed coordinates; integer-valued ones must then behave like the integers"""
+    from sugar.core.fts import Feature, FeatureList, Location
+    a, b = _typed(case['ka'], case['za']), _typed(case['kb'], case['zb'])
+    loc = Location(a, b)
+    out = [_twice(loc.start), _twice(loc.stop)]
+    if case['ka'] in 'ibn' and case['kb'] in 'ibn' and case.get('w'):      # integers proper (float coordinates: constructor only)
+        x, y, r, L = case['w']
+        ia, ib = out[0] // 2, out[1] // 2
+        for s in '+-.':
+            def run(p, q):
+                ft = Feature('gene', locs=[Location(p, q, s, 5), Location(p + 1, q + 2, s)])
+                fl = FeatureList([ft, Feature('cds', start=p, stop=q, strand=s)])
+                sl = fl.slice(x, y, rel=r)
+                v = [[[_twice(l.start), _twice(l.stop), str(l.strand), int(l.defect)] for l in f.locs] for f in sl]
+                fl.rc(seqlen=L)
+                v.append([[[_twice(l.start), _twice(l.stop), str(l.strand), int(l.defect)] for l in f.locs] for f in fl])
+                lr = fl.loc_range
+                v.append([_twice(lr[0]), _twice(lr[1]), _twice(len(fl[0])), fl[0].locs < fl[1].locs, fl[0].locs >= fl[1].locs,
+                          fl[0].overlaps(fl[1]), _twice(fl[0].locs.range[0])])
+                return v
+            got, exp = run(a, b), run(ia, ib)
+            _need(got == exp, TypedCoordsDiffer, '%r, %r strand %s: %r, with ints %r' % (a, b, s, got, exp))
+    return out
+
+
 def impl(case):
     import sys
     from sugar.core.fts import FeatureList, LocationTuple
     assert sys.maxsize == 2 ** 63 - 1
     case = _norm(case)
     k = case['_k']
+    if k == 'law':
+        return _impl_law(case)
+    if k == 'ops':
+        return _impl_ops(case)
+    if k == 'args':
+        return _impl_args(case)
     if k == 'cmp':
         t = LocationTuple([_mkloc(r) for r in case['t']])
         u = LocationTuple([_mkloc(r) for r in case['u']])
@@ -604,11 +800,93 @@ def _spec_hist(case, got):
     return None
 
 
+def _spec_law(case, got):
+    import sys
+    if not all(_valid_locs(f['locs']) for f in case['fts']):
+        return None if got == {'e': 'ValueError'} else 'invalid construction accepted'
+    if isinstance(got, dict):
+        return 'raised %s' % got['e']
+    st = [[[list(r) for r in f['locs']], f['m']] for f in case['fts']]
+    s1, e1, r1, s2, e2, r2, L, Lp = (case[k] for k in ('s1', 'e1', 'r1', 's2', 'e2', 'r2', 'L', 'Lp'))
+    once = _o_slice(st, s1, e1, r1)
+    twice = _o_slice(once, s2, e2, r2)
+    mir = [[_o_mirror(locs, Lp), fm] for locs, fm in once]
+    for n, (g, e) in enumerate(zip(got, [twice, twice, mir, mir])):
+        w = _same_state(g, e)
+        if w:
+            return 'route %d (%s): %s' % (n, ['slice.slice', 'single slice', 'slice.rc', 'rc.slice'][n], w)
+    return None
+
+
+def _spec_ops(case, got):
+    if not (_valid_locs(case['t']) and _valid_locs(case['u'])):
+        return None if got == {'e': 'ValueError'} else 'invalid construction accepted'
+    if isinstance(got, dict):
+        return 'raised %s' % got['e']
+    kx, ky = case['kx'], case['ky']
+    exp = _o_cmp(case['t'], case['u'])
+    sid = {1: None, 2: 'a', 3: 'B', 4: 'ab'}
+    by_seqid = kx in sid and ky in sid and sid[kx] != sid[ky]
+    for n, name in enumerate(['<', '<=', '>', '>=']):
+        g = got[n]
+        if isinstance(g, str):
+            if g != 'TypeError':
+                return '%s raised %s' % (name, g)
+            if kx == 0 and ky == 0:
+                return 'LocationTuple %s LocationTuple refused' % name
+            if name == '<' and kx in sid and (ky == 0 or (ky in sid and (sid[kx] == sid[ky] or None not in (sid[kx], sid[ky])))):
+                return 'Feature < %s refused' % ('LocationTuple' if ky == 0 else 'Feature')
+            continue
+        if kx > 4 or ky > 4:
+            return '%s answered %r for an operand that is neither LocationTuple nor Feature' % (name, g)
+        if by_seqid and None in (sid[kx], sid[ky]):
+            continue                      # features with and without seqid: the property is silent (sugar raises TypeError today)
+        want = ((sid[kx] < sid[ky]) if name == '<' else (sid[kx] > sid[ky])) if by_seqid and name in '<>' else exp[n]
+        if g != want:
+            return '%s answered %r, covered ranges %r vs %r' % (name, g, exp[5:7], exp[7:9])
+    for n, (a, b) in ((4, (kx, ky)), (5, (ky, kx))):
+        g = got[n]
+        if g is None:
+            if a <= 4:
+                return 'no overlaps() on a LocationTuple / Feature'
+            continue
+        if isinstance(g, str):
+            if g != 'TypeError':
+                return 'overlaps raised %s' % g
+            if b <= 4 and not (a == 0 and b != 0):
+                return 'overlaps refused'
+            continue
+        if a > 4 or b > 4:
+            return 'overlaps answered %r for a foreign operand' % (g,)
+        if g != exp[4]:
+            return 'overlaps answered %r, covered ranges %r vs %r' % (g, exp[5:7], exp[7:9])
+    return None
+
+
+def _spec_args(case, got):
+    from fractions import Fraction
+    val = lambda k, z: None if k == 'N' else Fraction(z, 2) if k == 'h' else Fraction(1 if z else 0) if k == 'b' else Fraction(z)
+    a, b = val(case['ka'], case['za']), val(case['kb'], case['zb'])
+    if a is None or b is None:
+        return None if got == {'e': 'TypeError'} else 'expected TypeError, got %r' % (got,)
+    if a >= b:
+        return None if got == {'e': 'ValueError'} else 'start >= stop accepted: %r' % (got,)
+    if isinstance(got, dict):
+        return 'raised %s' % got['e']
+    return None if got == [2 * a, 2 * b] else 'stored %r/2, %r/2 for %r, %r' % (got[0], got[1], a, b)
+
+
 def spec(case, got):
     case = _norm(case)
     k = case['_k']
     if k == 'h':
         return _spec_hist(case, got)
+    if k == 'law':
+        return _spec_law(case, got)
+    if k == 'ops':
+        return _spec_ops(case, got)
+    if k == 'args':
+        return _spec_args(case, got)
     if k == 'rr':
         if not all(_valid_locs(f['locs']) for f in case['fts']):
             return None if got == {'e': 'ValueError'} else 'invalid construction accepted'
@@ -664,6 +942,10 @@ def _marks(case):
     ms = set()
     if k == 'api':
         return {'api%d' % case['v']}
+    if k == 'ops':
+        return {'ops', 'kinds=%d,%d' % (case['kx'], case['ky'])} | ({'multi'} if len(case['t']) > 1 or len(case['u']) > 1 else set())
+    if k == 'args':
+        return {'args', 'kinds=%s%s' % (case['ka'], case['kb'])}
     if k == 'cmp':
         ms.add('cmp')
         if len(case['t']) > 1 or len(case['u']) > 1:
@@ -687,6 +969,13 @@ def _marks(case):
             ms.add('share')
     if k == 'rr':
         ms.add('rr')
+        return ms
+    if k == 'law':
+        ms.add('law')
+        if None in (case['s1'], case['e1'], case['s2'], case['e2']):
+            ms.add('open')
+        if case['r1'] or case['r2']:
+            ms.add('rel')
         return ms
     for o in case['ops']:
         ms.add(o[0])
@@ -718,7 +1007,9 @@ def nontrivial(case, got):
 def histkey(case, got):
     case = _norm(case)
     ks = ['kind=' + case['_k']]
-    if case['_k'] in ('cmp', 'api'):
+    if case['_k'] in ('cmp', 'api', 'ops', 'args'):
+        if case['_k'] == 'ops' and not isinstance(got, dict):
+            ks.append('answers=%d' % sum(1 for g in got if isinstance(g, bool)))
         return ks + ['result=' + ('error' if isinstance(got, dict) else 'ok')]
     nl = sum(len(f['locs']) for f in case['fts'])
     ks.append('nlocs=' + ('0' if nl == 0 else '1' if nl == 1 else '2' if nl == 2 else '3+'))
@@ -936,6 +1227,65 @@ def _mirror_pair_case(rng):
     return {'_k': 'h', 'fts': fts, 'ops': ops}
 
 
+def _law_case(rng):
+    """one list, two windows (the second in the coordinates of the first result) and two lengths: slice.slice against the single
+    slice, slice.rc(L') against rc(L).slice with the mirrored window"""
+    coord = (lambda: rng.randint(-2, 14)) if rng.random() < 0.85 else _rand_coord_gen(rng)
+    strands = '+-' if rng.random() < 0.6 else '+-.?'
+    fts = []
+    for i in range(rng.choice([1, 2, 2, 3])):
+        fts.append({'locs': _rand_locs(rng, coord, strand=rng.choice(strands), n=rng.choice([1, 2, 2, 3]), valid=rng.random() < 0.97),
+                    'm': 50 + i, 'kw': False, 'share': None})
+    s1 = None if rng.random() < 0.12 else coord()
+    e1 = None if rng.random() < 0.12 else (coord() if s1 is None or rng.random() < 0.15 else s1 + rng.choice([0, 1, 2, 4, 7, 12]))
+    r1 = rng.choice([0, 0, s1 if s1 is not None else 1, 1, -2, coord()])
+    s2 = None if rng.random() < 0.12 else coord() - r1
+    e2 = None if rng.random() < 0.12 else (coord() - r1 if s2 is None or rng.random() < 0.15 else s2 + rng.choice([0, 1, 2, 3, 6, 10]))
+    r2 = rng.choice([0, 0, s2 if s2 is not None else 2, 1, -3])
+    L = rng.choice([0, 14, 20, coord()])
+    Lp = rng.choice([L, e1 - s1 if None not in (s1, e1) else 9, 0, coord()])
+    return {'_k': 'law', 'fts': fts, 's1': s1, 'e1': e1, 'r1': r1, 's2': s2, 'e2': e2, 'r2': r2, 'L': L, 'Lp': Lp}
+
+
+def _ops_cases(rng, reps):
+    """every ordered pair of operand kinds in which at least one side is a LocationTuple or a Feature"""
+    out = []
+    for kx, ky in itertools.product(range(OPERAND_KINDS), repeat=2):
+        if kx > 4 and ky > 4:
+            continue
+        for _ in range(reps):
+            coord = (lambda: rng.randint(0, 9)) if rng.random() < 0.9 else _rand_coord_gen(rng)
+            t = _rand_locs(rng, coord, valid=rng.random() < 0.97)
+            u = [list(r) for r in t] if rng.random() < 0.15 else _rand_locs(rng, coord, valid=rng.random() < 0.97)
+            out.append({'_k': 'ops', 'kx': kx, 'ky': ky, 't': t, 'u': u})
+    return out
+
+
+def _args_cases(rng, reps):
+    """Location(start, stop) with every pair of value kinds: int, bool, numpy.int64, float (also half-integral), None"""
+    out = []
+
+    def value(kind):
+        if kind == 'b':
+            return rng.randint(0, 1)
+        if kind == 'N':
+            return 0
+        z = rng.choice([rng.randint(-3, 6), rng.randint(-3, 6), rng.randint(-10 ** 6, 10 ** 6), 2 ** 40 + rng.randint(-5, 5)])
+        return z if kind != 'h' else rng.choice([2 * z, 2 * z, 2 * z + 1])
+    for ka, kb in itertools.product('ibnhN', repeat=2):
+        for _ in range(reps):
+            za = value(ka)
+            zb = value(kb)
+            if rng.random() < 0.5 and 'N' not in (ka, kb) and 'b' not in (ka, kb):      # stop close to start: <, =, > all occur
+                va = za / 2 if ka == 'h' else za
+                d = rng.choice([-1, 0, 1, 1, 2, 5])
+                zb = int(2 * va) + d if kb == 'h' else int(va) + d
+            x = rng.randint(-4, 8)
+            out.append({'_k': 'args', 'ka': ka, 'za': za, 'kb': kb, 'zb': zb,
+                        'w': [x, x + rng.choice([0, 1, 3, 6]), rng.choice([0, 1, x]), rng.choice([0, 7, 20])]})
+    return out
+
+
 def gen_cases(rng, tier):
     cases = []
     thorough = tier == 'thorough'
@@ -986,6 +1336,7 @@ def gen_cases(rng, tier):
             if v == 2:
                 locs = [r[:4] + [0] for r in locs]
             cases.append({'_k': 'api', 'v': v, 't': locs})
+        cases.append({'_k': 'api', 'v': v, 't': []})          # no location at all, in every constructor form
     # list-level mirroring of lists that contain mirror-image pairs / equal duplicates
     for _ in range(2000 if thorough else 250):
         cases.append(_mirror_pair_case(rng))
@@ -995,6 +1346,11 @@ def gen_cases(rng, tier):
     # state-independence stream: shared Location objects, repeated / reordered queries, mutation of results and operands
     for _ in range(4000 if thorough else 450):
         cases.append(_indep_case(rng))
+    # round 6: composition laws, operand kinds of the comparisons, kinds of coordinate values
+    for _ in range(5000 if thorough else 380):
+        cases.append(_law_case(rng))
+    cases += _ops_cases(rng, 8 if thorough else 2)
+    cases += _args_cases(rng, 40 if thorough else 6)
     nrand = 16000 if thorough else 900
     for _ in range(nrand):
         coord = _rand_coord_gen(rng)
